@@ -511,6 +511,7 @@ class CallsMixin:
             type: self.b_type,
             getattr: self.b_getattr,
             super: lambda a, k, fr: SuperProxy(),
+            reversed: self.b_reversed,
         }
         for k, v in self.extra_builtins().items():
             t[k] = v
@@ -804,6 +805,18 @@ class CallsMixin:
                 return model.m___iter__list(self, v, fr)
         raise Unsupported(f"list({v!r})")
 
+    def b_reversed(self, a, k, fr):
+        v = a[0]
+        if isinstance(v, (tuple, list)):
+            return list(reversed(v))
+        if isinstance(v, PList) and v.sym is None:
+            return PList(list(reversed(v.items)))
+        if isinstance(v, PList) and not v.items:
+            return ReversedIter(v.sym)
+        if isinstance(v, SymSeq):
+            return ReversedIter(v)
+        raise Unsupported(f"reversed({v!r})")
+
     def b_tuple(self, a, k, fr):
         if not a:
             return ()
@@ -1075,6 +1088,16 @@ class CallsMixin:
             tail = mk_str(z3.If(found, z3.SubString(e, idx + z3.Length(sep), n), emp), kind)
             return (head, mid, tail)
         if name == "split":
+            if len(args) == 1 and not kwargs:
+                # split(sep) is a function of its arguments: non-empty, and the string itself when
+                # the separator does not occur (nothing else is interpreted)
+                sep = str_to_z3(args[0])
+                f_split = z3.Function("s_split", Str, Str, StrSeq)
+                sq = SymSeq(f_split(e, sep), "str" if kind == "str" else "bstr")
+                ctx.assume(z3.Length(sq.e) >= 1)
+                ctx.assume(z3.Implies(z3.Not(z3.Contains(e, sep)), sq.e == z3.Unit(e)))
+                ctx.assumptions_used.add("str.split(sep) is an uninterpreted function of (string, sep): non-empty, [s] when sep does not occur")
+                return PList(sym=sq)
             sq = SymSeq(ctx.fresh("split", StrSeq), "str" if kind == "str" else "bstr")
             ctx.assume(z3.Length(sq.e) >= 1)
             ctx.assumptions_used.add("str.split result is an uninterpreted non-empty sequence")
@@ -1111,6 +1134,19 @@ def ascii_cond(e):
     if z3.is_app(e) and e.decl().kind() == z3.Z3_OP_SEQ_CONCAT:
         return z3.And(*[ascii_cond(c) for c in e.children()])
     return s_ascii_ok(e)
+
+
+class ReversedIter:
+    """reversed(seq) for a symbolic sequence: element i is seq[len - 1 - i]"""
+
+    def __init__(self, seq: SymSeq):
+        self.seq = seq
+
+    def length(self):
+        return z3.Length(self.seq.e)
+
+    def elem(self, interp, i, fr):
+        return interp.seq_elem(self.seq, z3.Length(self.seq.e) - 1 - ops.z3_of_int(i))
 
 
 class BoundMethodResultKeys:
